@@ -42,6 +42,8 @@ SCHEMAS = {
 PATHS = {
     "/one": {"get": {"operationId": "getOne", "responses": {"200": {"description": "ok", "content": {"application/json": {"schema": _ref("Alpha")}}}, "404": {"description": "no", "content": {"application/json": {"schema": _ref("Beta")}}}}}},
     "/two": {"post": {"operationId": "postTwo", "requestBody": {"content": {"application/json": {"schema": _ref("Gamma")}}}, "responses": {"200": {"description": "ok", "content": {"application/json": {"schema": _ref("Delta")}}}}}},
+    "/body-multi": {"post": {"operationId": "postMulti", "requestBody": {"content": {"multipart/form-data": {"schema": _ref("Delta")}}}, "responses": {"204": {"description": "none"}}}},
+    "/body-json": {"put": {"operationId": "putJson", "requestBody": {"content": {"application/json": {"schema": _ref("Delta")}}}, "responses": {"204": {"description": "none"}}}},
     "/three": {"get": {"operationId": "getThree", "parameters": [{"name": "q", "in": "query", "schema": _ref("Delta")}], "responses": {"204": {"description": "none"}}}},
 }
 
@@ -136,13 +138,22 @@ def path_declaration_order(pp: int) -> bool:
     pre: 0 <= pp < 6
     post: _
     """
+    out, errs = _render(_doc(sorted(SCHEMAS), _perm(sorted(PATHS), pp * 23 + 9)), set_perm=0)
+    return out == CANON and errs == CANON_ERRS == []
+
+
+def path_declaration_order_thorough(pp: int) -> bool:
+    """
+    pre: 0 <= pp < 120
+    post: _
+    """
     out, errs = _render(_doc(sorted(SCHEMAS), _perm(sorted(PATHS), pp)), set_perm=0)
     return out == CANON and errs == CANON_ERRS == []
 
 
 def set_iteration_order(p: int) -> bool:
     """
-    pre: 0 <= p < 6
+    pre: 0 <= p < 4
     post: _
     """
     out, errs = _render(_doc(sorted(SCHEMAS), sorted(PATHS)), set_perm=p * 5 + 1)
